@@ -58,6 +58,7 @@ type stepT struct {
 	Raw    *rawT   `json:"raw,omitempty"`
 	Storm  *stormT `json:"storm,omitempty"`
 	Desc   string  `json:"desc,omitempty"`
+	Burst  int     `json:"burst,omitempty"` // req: this many further copies are written before the attacker reads
 }
 
 type caseT struct {
@@ -218,6 +219,15 @@ func (r *runT) step(s stepT) {
 		if err != nil {
 			o.class("outcome:write-failed")
 			return
+		}
+		if s.Burst > 0 {
+			o.class("burst:%s x%d", s.Type, s.Burst+1)
+			for i := 0; i < s.Burst && i < 400; i++ {
+				if rid, err = a.sendBody(buildBody(s.TypeID, r.token(s.Token, a), a.reqID+1, r.resolve(rest))); err != nil {
+					o.class("outcome:write-failed")
+					return
+				}
+			}
 		}
 		wait := 600 * time.Millisecond
 		switch {
